@@ -386,22 +386,66 @@ theorem finalSymTab_mono {ra rb : List Stmt} : ∀ (t r : SymTab),
       | _ => exact h
     | _ => rw [h1] at h; cases h
 
+/-! ### the evaluation of the EQU expressions (batch 4) -/
+
+theorem SymTab.le_append (t d : SymTab) : SymTab.Le t (t ++ d) :=
+  fun _ _ hk => SymTab.get?_append_of_some hk
+
+/-- an entry that is evaluated successfully against a table and a statement list evaluates to the same value against a
+longer table and a longer statement list -/
+theorem evalSym_mono {ra rb : List Stmt} {t t' : SymTab} (hle : SymTab.Le t t')
+    {v v' : Value} (h : evalSym ra t v = .ok v') : evalSym (ra ++ rb) t' v = .ok v' := by
+  cases v with
+  | expr l r op m ae =>
+    rw [evalSym_expr] at h ⊢
+    cases hr : (Value.expr l r op m ae).resolve t with
+    | error e => rw [hr] at h; cases h
+    | ok x =>
+      rw [hr] at h
+      rw [Value.resolve_mono hle hr]
+      dsimp only at h ⊢
+      by_cases hx : x.isAddrExpr = true
+      · rw [if_pos hx] at h ⊢
+        cases ho : addrOffset ra x with
+        | ok y => rw [addrOffset_append ho]; rw [ho] at h; exact h
+        | _ => rw [ho] at h; cases h
+      · rw [if_neg hx] at h ⊢; exact h
+  | _ => exact h
+
+theorem evalSyms_mono {ra rb : List Stmt} {t t' : SymTab} (hle : SymTab.Le t t') :
+    ∀ {x r : SymTab}, evalSyms ra t x = .ok r → evalSyms (ra ++ rb) t' x = .ok r := by
+  intro x
+  induction x with
+  | nil => intro r h; exact h
+  | cons kv rest ih =>
+    intro r h
+    obtain ⟨k, v⟩ := kv
+    obtain ⟨v', r', h1, h2, rfl⟩ := evalSyms_ok_cons h
+    exact evalSyms_cons_ok (evalSym_mono hle h1) (ih h2)
+
 /-! ### `finish` -/
 
+/-- STATEMENT CHANGED in batch 4: the final symbol table is made from the table with the EQU expressions evaluated -/
 theorem finish_ok {t : SymTab} {ss4 : List Stmt} {A : Assembly} (h : finish t ss4 = .ok A) :
-    fixAll ss4 0 ss4 = .ok A.stmts ∧ finalSymTab A.stmts t = .ok A.symtab := by
+    fixAll ss4 0 ss4 = .ok A.stmts ∧
+      ∃ t1, evalSyms A.stmts t t = .ok t1 ∧ finalSymTab A.stmts t1 = .ok A.symtab := by
   unfold finish at h
   cases h1 : fixAll ss4 0 ss4 with
   | ok ss5 =>
     rw [h1] at h
     dsimp only at h
-    cases h2 : finalSymTab ss5 t with
-    | ok t' =>
-      rw [h2] at h
-      simp only [Outcome.ok.injEq] at h
-      subst h
-      exact ⟨rfl, h2⟩
-    | _ => rw [h2] at h; cases h
+    cases h3 : evalSyms ss5 t t with
+    | ok t1 =>
+      rw [h3] at h
+      dsimp only at h
+      cases h2 : finalSymTab ss5 t1 with
+      | ok t' =>
+        rw [h2] at h
+        simp only [Outcome.ok.injEq] at h
+        subst h
+        exact ⟨rfl, t1, h3, h2⟩
+      | _ => rw [h2] at h; cases h
+    | _ => rw [h3] at h; cases h
   | _ => rw [h1] at h; cases h
 
 /-- prefix stability of `finish` -/
@@ -409,13 +453,17 @@ theorem finish_prefix {t1 d : SymTab} {la lb : List Stmt} {A B : Assembly}
     (hA : finish t1 la = .ok A) (hB : finish (t1 ++ d) (la ++ lb) = .ok B)
     (hbr : BranchInside la.length la) :
     (∃ r, B.stmts = A.stmts ++ r) ∧ (∃ d', B.symtab = A.symtab ++ d') := by
-  obtain ⟨a1, a2⟩ := finish_ok hA
-  obtain ⟨b1, b2⟩ := finish_ok hB
+  obtain ⟨a1, ta, a3, a2⟩ := finish_ok hA
+  obtain ⟨b1, tb, b3, b2⟩ := finish_ok hB
   obtain ⟨rx, ry, e1, _, e3⟩ := fixAll_append_ok _ _ _ _ _ b1
   have := fixAll_mono (rb := lb) la 0 A.stmts (by simp) hbr a1
   rw [this] at e1
   cases e1
-  rw [e3] at b2
+  rw [e3] at b2 b3
+  obtain ⟨tx, ty, g1, _, g3⟩ := evalSyms_append_ok b3
+  rw [evalSyms_mono (SymTab.le_append t1 d) a3] at g1
+  cases g1
+  rw [g3] at b2
   obtain ⟨r1, rd, f1, f2⟩ := finalSymTab_append_ok _ _ _ _ b2
   rw [finalSymTab_mono _ _ a2] at f1
   cases f1
